@@ -37,6 +37,7 @@ def run(res, tier, rng, table_diffs=()):
     srcs += gen2.big_code_programs()
     srcs += gen2.width_boundary_programs()
     srcs += [("iife", p) for p in gen2.iife_programs()]
+    srcs += [("tail-shapes", p) for p in gen2.tail_shape_programs()]
     for _ in range(500 if tier == "quick" else 10000):
         srcs.append(("nested-fn", gen2.nested_fn_program(rng.fork())))
     for _ in range(200 if tier == "quick" else 4000):
@@ -46,13 +47,17 @@ def run(res, tier, rng, table_diffs=()):
     res.coverage["sources_tried"] = len(srcs)
     res.coverage["sources_compiled"] = len(todo)
     ver = core.model(["verify " + c[3:] for _, _, c in todo])
-    runs = core.impl(["evalx 200000 " + hx(s) for _, s, _ in todo])
-    mruns = core.model(["evalx 200000 " + hx(s) for _, s, _ in todo])
+    # LOCKSTEP TIE OF THE MACHINE MODEL TO vm.rs ON THE REAL BYTES: the real compiler's bytes are run by the real VM with the
+    # trace hook (`runtrace`: outcome, steps, stack at Halt, collections, rolling hash of (ip, opcode, stack height, frames) per
+    # instruction) and by Model/VM (`runbytes` on the same bytes and constants) — independent of the compiler model
+    runs = core.impl(["runtrace 200000 " + hx(s) for _, s, _ in todo])
+    mruns = core.model(["runbytes 200000 " + (r.split(" ## ", 1)[1] if " ## " in r else "x | ") for r in runs])
     reported = 0
     for (lab, s, c), v, r, m in zip(todo, ver, runs, mruns):
         res.seen(s, nontrivial=True)
         res.count(lab)
         res.count("verifier:" + v.split(" ")[0])
+        r = r.split(" ## ", 1)[0]
         ro = diff.obs(r)
         fault = ro.startswith(("FAULT", "PANIC", "CRASH"))
         if fault and reported < 4:
@@ -69,24 +74,36 @@ def run(res, tier, rng, table_diffs=()):
                           no_input=True)
             continue
         mo = diff.obs(m)
+        if mo.startswith(("TIMEOUT", "CRASH", "bad-request")):
+            res.count("model-unavailable")
+            continue
         if ro != "BUDGET" and mo != "BUDGET":
             ms, rs_ = diff.stats(m), diff.stats(r)
-            if (ro != mo or ms.get("steps") != rs_.get("steps") or ms.get("halt") != rs_.get("halt")) and reported < 6:
+            res.count("lockstep-compared")
+            bad = ro != mo or any(ms.get(k) != rs_.get(k) for k in ("steps", "halt", "gc", "hash"))
+            if bad and reported < 6:
                 reported += 1
-                res.violation("machine model and vm.rs disagree (outcome, step count or stack height at Halt)",
-                              dict(kind="model", input=s, impl=r, model=m, unchecked="step correspondence Model/VM vs vm.rs (the machine the theorems are about)"),
+                res.violation("machine model and vm.rs disagree on the real compiler's bytes (outcome, step count, stack height at Halt, collections or the per-instruction trace hash)",
+                              dict(kind="model", input=s, impl=r, model=m, unchecked="lockstep correspondence Model/VM vs vm.rs on the real bytecode (the machine the theorems are about)"),
                               no_input=True)
 
 
 def replay(res, rp):
     s = rp["input"]
     c = core.impl(["compile " + hx(s)])[0]
-    r = core.impl(["evalx 200000 " + hx(s)])[0]
+    r = core.impl(["runtrace 200000 " + hx(s)])[0]
     v = core.model(["verify " + c[3:]])[0] if c.startswith("ok ") else "n/a"
+    m = core.model(["runbytes 200000 " + r.split(" ## ", 1)[1]])[0] if " ## " in r else "n/a"
+    r = r.split(" ## ", 1)[0]
     print("compile:", c[:200])
     print("verify :", v)
     print("run    :", r[:300])
-    if diff.obs(r).startswith(("FAULT", "PANIC", "CRASH")) or (c.startswith("ok ") and not v.startswith("ok")):
+    print("model  :", m[:300])
+    bad = diff.obs(r).startswith(("FAULT", "PANIC", "CRASH")) or (c.startswith("ok ") and not v.startswith("ok"))
+    if m != "n/a" and diff.obs(r) != "BUDGET" and diff.obs(m) != "BUDGET" and not diff.obs(m).startswith(("TIMEOUT", "CRASH")):
+        ms, rs_ = diff.stats(m), diff.stats(r)
+        bad = bad or diff.obs(r) != diff.obs(m) or any(ms.get(k) != rs_.get(k) for k in ("steps", "halt", "gc", "hash"))
+    if bad:
         print("VIOLATION property=C02 replay=replay")
         return 1
     return 0
